@@ -147,3 +147,7 @@ mod wyckoff_site_tests {
         assert_eq!(wyckoff.multiplicity(), 1);
     }
 }
+
+#[cfg(kani)]
+#[path = "/verif/kani/wallpaper.rs"]
+mod verif_kani;
